@@ -61,6 +61,10 @@ def standard_scripts(big=True):
     for st in (10, 31, 44, 51, 62):
         for e in ("fin", "never"):
             S.append(script("st%d-%s" % (st, e), ("%d meta text" % st).encode(), True, "ok", st, True, "none", b"BODY!", True, e))
+    # a non-success answer and nothing after it, ended by a reset (what a bare TCP close becomes once the client's own
+    # close_notify lies unread): the answer was complete at the CRLF
+    for st in (30, 51):
+        S.append(script("st%d-only-rst" % st, ("%d meta text" % st).encode(), True, "ok", st, True, "none", b"", True, "rst"))
     for st, hb in ((5, b"05 low"), (70, b"70 high"), (99, b"99 high"), (9, b"9 one digit"), (100, b"100 three")):
         # a status is two digits: one or three digits are not a status at all
         S.append(script("range%d" % st, hb, True, "ok" if len(hb.split(b" ")[0]) == 2 else "badStatus", st, True, "none", b"BODY!", True, "fin"))
